@@ -168,6 +168,39 @@ func c05Direct(st []gstage, ren map[string]string) (obs string, other string) {
 }
 
 // c05Pipeline goes through mapstructure decoding and internal/config.buildPipeline.
+// c05PipelineUnnamed: every stage is declared without a name of its own, through a task whose KEY is the stage's
+// name (a stage without a name is called after the task key); the tasks carry `name:` fields that are a rotation of
+// the keys, so that anything naming a stage after the task's display name builds a different graph
+func c05PipelineUnnamed(st []gstage) (obs string, other string) {
+	names := allNames(st)
+	declared := map[string]bool{}
+	for _, s := range st {
+		declared[s.name] = true
+	}
+	tasks := map[string]interface{}{}
+	for i, n := range names {
+		tasks[n] = map[string]interface{}{"command": []interface{}{"true"}, "name": names[(i+1)%len(names)]}
+	}
+	var stages []interface{}
+	for _, s := range st {
+		deps := make([]interface{}, len(s.deps))
+		for i, d := range s.deps {
+			deps[i] = d
+		}
+		stages = append(stages, map[string]interface{}{"task": s.name, "depends_on": deps})
+	}
+	raw := map[string]interface{}{"tasks": tasks, "pipelines": map[string]interface{}{"p": stages}}
+	cl := verifhooks.NewConfigLoader(verifhooks.NewConfig())
+	cfg, err := cl.VerifBuildRaw(raw, "")
+	if err != nil {
+		if errors.Is(err, scheduler.ErrCycleDetected) {
+			return "err", ""
+		}
+		return "err", "non-cycle error: " + err.Error()
+	}
+	return observeGraph(cfg.Pipelines["p"], names, nil), ""
+}
+
 func c05Pipeline(st []gstage, ren map[string]string) (obs string, other string) {
 	canonNames := allNames(st)
 	st = renamed(st, ren)
@@ -194,6 +227,22 @@ func c05Pipeline(st []gstage, ren map[string]string) (obs string, other string) 
 	return observeGraph(cfg.Pipelines["p"], canonNames, ren), ""
 }
 
+// every name used in a depends_on is a declared stage (the pipeline path rejects dangling names)
+func allDeclared(st []gstage) bool {
+	d := map[string]bool{}
+	for _, s := range st {
+		d[s.name] = true
+	}
+	for _, s := range st {
+		for _, x := range s.deps {
+			if !d[x] {
+				return false
+			}
+		}
+	}
+	return true
+}
+
 func c05Case(c *Collector, st []gstage, via string, tag string) { c05CaseRen(c, st, via, tag, nil) }
 
 // stage names that collide when two of them are glued with a separator ("a"+":"+"b:a" = "a:b"+":"+"a"), names
@@ -206,7 +255,9 @@ var oddNamePools = [][]string{
 
 func c05CaseRen(c *Collector, st []gstage, via string, tag string, ren map[string]string) {
 	var obs, other string
-	if via == "pipeline" {
+	if via == "pipeline-unnamed" {
+		obs, other = c05PipelineUnnamed(st)
+	} else if via == "pipeline" {
 		obs, other = c05Pipeline(st, ren)
 	} else {
 		obs, other = c05Direct(st, ren)
@@ -256,6 +307,37 @@ func runC05(c *Collector, tier string, seed int64) {
 				st := stagesFromMask(names[:n], n, mask, p, nil)
 				c05Case(c, st, "direct", "exh<=3")
 				c05Case(c, st, "pipeline", "exh<=3")
+				if n >= 2 && allDeclared(st) {
+					c05Case(c, st, "pipeline-unnamed", "exh<=3")
+				}
+			}
+		}
+	}
+	// the small digraphs again, exhaustively, with the stage names of every pool (sparse graphs: a cycle or an edge
+	// lost to a name collision is not hidden behind another cycle)
+	oddSmall := append([][]string{{"a", "aa", "aaa", "aaaa"}, {"a", "ab", "bc", "c"}, {"ab", "c", "a", "bc"}, {"", "a", "aa", " "}}, oddNamePools...)
+	for n := 2; n <= 3; n++ {
+		for mask := 0; mask < 1<<(uint(n*n)); mask++ {
+			for pi, p := range permutations(n) {
+				for qi, pool := range oddSmall {
+					if pool[0] == "" && n == 3 {
+						continue
+					}
+					for off := 0; off+n <= 4; off++ {
+						if tier != "thorough" && (mask+pi+qi+off)%3 != int(seed%3+3)%3 {
+							continue
+						}
+						ren := map[string]string{}
+						for i := 0; i < n; i++ {
+							ren[names[i]] = pool[off+i]
+						}
+						via := "direct"
+						if (mask+qi)%4 == 0 && pool[0] != "" {
+							via = "pipeline"
+						}
+						c05CaseRen(c, stagesFromMask(names[:n], n, mask, p, nil), via, "exh<=3-odd-names", ren)
+					}
+				}
 			}
 		}
 	}
@@ -271,7 +353,9 @@ func runC05(c *Collector, tier string, seed int64) {
 		for k, p := range ps {
 			st := stagesFromMask(names, 4, mask, p, rng)
 			work = append(work, st)
-			if k == 0 && (tier == "thorough" || mask%4 == int(seed%4+4)%4) {
+			if k == 1 && mask%16 == int(seed%16+16)%16 {
+				vias = append(vias, "pipeline-unnamed")
+			} else if k == 0 && (tier == "thorough" || mask%4 == int(seed%4+4)%4) {
 				vias = append(vias, "pipeline")
 			} else {
 				vias = append(vias, "direct")
